@@ -229,3 +229,33 @@ def execute(pid, tier, seed, cases, assumptions, extra_cov=None, budget_s=None, 
     if main_q and not any(r.get('status') in ('holds', 'fails') for r in main_q): return 2
     if len(undecided) > len(main_q) // 2: return 2
     return 0
+
+def generic_replay(path, mod=None):
+    """check.py <id> --replay <file>: rebuild the case's fixture from /repo's current tree, compile the harness natively
+    against the REAL object code and feed it the recorded nondet stream; exit 1 if the violation reproduces."""
+    import importlib
+    rp = json.load(open(path)); pid = rp['property']
+    mod = mod or importlib.import_module('props.' + pid.lower())
+    os.environ['VERIF_ONLY'] = rp['case']
+    found = None
+    for tier in ('quick', 'thorough'):
+        try: cs = mod.cases(tier)
+        except TypeError:
+            cs = mod.cases_all(tier) if hasattr(mod, 'cases_all') else []
+        if isinstance(cs, tuple): cs = cs[0]
+        for c in cs:
+            if c.name == rp['case']: found = c; break
+        if found: break
+    if not found and hasattr(mod, 'replay_case_lookup'): found = mod.replay_case_lookup(rp['case'])
+    if not found:
+        log('BROKEN: case %s not found in props.%s' % (rp['case'], pid.lower())); return 2
+    c2 = Case(found.name + '_rp', found.fixture, found.harness, rp['defs'], native_defs=found.native_defs); c2.fixture_b = found.fixture_b
+    exe = native_pair(c2, found.fixture['workdir'])
+    rc = 0
+    for i, run in enumerate(rp.get('runs', [])):
+        r = run_native(exe, inputs=run['inputs'])
+        log('replay run %d: native rc=%s failed=%s' % (i, r['rc'], sorted(set(r['fails']))))
+        if r['fails'] or (r['rc'] < 0 and r['rc'] != -9): rc = 1
+    if rc: log('VIOLATION property=%s replay=%s   # reproduced against the real code' % (pid, path))
+    else: log('not reproduced on the current tree')
+    return rc
